@@ -68,6 +68,12 @@ ENGINES = [
         "kind_free_text": "TLC checks the precedence/grammar model and enumerates layer stacks and option strings with expected outcomes; all are replayed into halmos' configuration code",
     },
     {
+        "name": "bytevec-model",
+        "path": "spec/ByteSeq.tla spec/ChunkVec.tla spec/MC_ByteSeq.tla spec/MC_ChunkVec.tla spec/MC_ChunkVec_*.cfg harness/bytevec_replay.py checks/c07.py",
+        "serves_properties": ["C07"],
+        "kind_free_text": "TLC checks that the chunked model refines the flat byte-array model and enumerates operation histories; the histories are replayed into halmos' ByteVec and SEVM memory, every read compared with the flat model",
+    },
+    {
         "name": "bytecode-model",
         "path": "spec/Bytecode.tla spec/BytecodeRun.tla spec/MC_Bytecode_*.cfg harness/bytecode_replay.py checks/c19.py",
         "serves_properties": ["C19"],
@@ -116,6 +122,13 @@ CHECKS: dict[str, dict] = {
         "text": "TLC first checks that the limb algorithms of EvmWord refine the natural-number definitions (all 8-bit operands on a grid / exhaustively in the thorough tier, 16- and 24-bit grids), then tabulates every operation for all 65 536 8-bit operand pairs and for 256-bit boundary/random vectors; the tables are replayed into the width-generic HalmosBitVec/HalmosBool methods in int-, term- and mixed representations (symbolic results are evaluated pointwise under the exact reading of the abstractions) and, through one-instruction programs, into the real SEVM.run dispatch with concrete, term-backed and boolean-typed operands. Every call is watched for exceptions and latency.",
         "note": "Exhaustive only at 8 bits; at 256 bits boundary x boundary and random vectors. Universal validity over 2^256 operands is not proved (DESIGN section 9). The mirror of SEVM's dispatch in harness/wordops.py is itself validated by the one-instruction programs.",
         "design_ref": "5 C06",
+    },
+    "C07": {
+        "engine": "bytevec-model",
+        "technique": "ByteSeq.tla (flat zero-extended byte array) refined by ChunkVec.tla (the chunked representation of bytevec.py, one action per public operation and per code branch); TLC checks the refinement and enumerates operation histories that are replayed into the real ByteVec and the SEVM memory driver",
+        "text": "ByteSeq.tla states what a byte sequence is (a flat array read as zero beyond its end); ChunkVec.tla models ByteVec's chunk list with the same case analysis as the code (aligned fast paths, chunk splitting, nested vectors, symbolic chunks) and TLC checks Refines / WellFormed / CopyIndependence / ReadsAgree over all histories of append / set_byte / set_word / set_slice / slice / copy / concretize commands within the bounds, incl. the alias case (a live vector written over exactly one chunk). Model mutants (by-reference aligned store - the behaviour before fix 1a97aee -, wrong fill on slice, aliasing copy, wrong post-state) must be refuted by the matching invariant. Every transition of the state graphs plus random histories of length 40 are replayed into the real ByteVec and into SEVM's memory operations, comparing every read (bytes, words, slices, symbolic terms evaluated pointwise) with ByteSeq; eight source-level broken variants of bytevec.py and corrupted expectation records must all be rejected.",
+        "note": "Bounds: <= 3 vectors, depth <= 7 in the exhaustive configurations; lengths and offsets from small profiles. The re-broken variants are source patches applied in memory to the current bytevec.py (a pattern that no longer matches is a machinery error, not a pass).",
+        "design_ref": "5 C07, 12",
     },
     "C08": {
         "engine": "E1-reference-machine",
